@@ -563,6 +563,19 @@ func genCase(r *rand.Rand) Case {
 			c.In.Vars[v.Name] = core.Pick(r, []string{"say \"hi\"", "tab\there", "back\\slash", "ünïcode ✓", "<html>&amp;", "line\nbreak", ""})
 		}
 	}
+	// the same for asset and account values (they end up inside monetary values and postings)
+	usesMeta := strings.Contains(c.Text, "set_tx_meta") || strings.Contains(c.Text, "set_account_meta")
+	for _, v := range g.Prog.Vars {
+		if v.Fn == "" && v.Type == "asset" && (usesMeta || r.IntN(3) == 0) && r.IntN(3) == 0 {
+			c.In.Vars[v.Name] = core.Pick(r, []string{"U\"SD", "EUR\\2", "ÜSD", "A B", "<X>"})
+			// and make sure the value reaches the output as part of a monetary
+			g.Prog.Stmts = append(g.Prog.Stmts, gen.Stmt{K: "call", Fn: "set_tx_meta", Args: []gen.Expr{*gen.Str("zz_m"), *gen.Mon(gen.Var(v.Name), gen.Num("1"))}})
+			c.Text = g.Prog.Text()
+		}
+		if v.Fn == "" && v.Type == "account" && r.IntN(8) == 0 {
+			c.In.Vars[v.Name] = core.Pick(r, []string{"quo\"te", "back\\slash", "ünï", "sp ace"})
+		}
+	}
 	all := []string{"raw", "stdin", "files", "split"}
 	n := 2 + r.IntN(3)
 	perm := r.Perm(4)
